@@ -293,6 +293,8 @@ class Interp:
                 it = list(it)
             if isinstance(it, dict):
                 it = list(it.keys())
+            if isinstance(it, Obj) and isinstance(it.attrs.get('__iter__'), (list, tuple)):
+                it = list(it.attrs['__iter__'])          # object whose class defines __iter__ over a stored sequence (a world iterates its layers)
             if not isinstance(it, (list, tuple)):
                 raise AnalysisError(f'{fr.mod.where(st)}: for-loop over a non-constant iterable')
             if len(it) > self.max_unroll:
@@ -880,7 +882,11 @@ class Interp:
                 else:
                     return '<fstring>'
         return out
-    def e_Lambda(self, e, fr): return ('lambda', e, fr)
+    def e_Lambda(self, e, fr):
+        # default values are evaluated when the lambda is created (early binding, `lambda layer=layer: ...`); free names are looked up in the live
+        # defining frame when it is called (late binding)
+        dflt = [self.eval(d_, fr) for d_ in e.args.defaults]
+        return ('lambda', e, fr, dflt)
 
     def e_ListComp(self, e, fr):
         if len(e.generators) != 1:
@@ -944,7 +950,11 @@ class Interp:
         if isinstance(f, tuple) and f and f[0] == 'lambda':
             lam, lfr = f[1], f[2]
             sub = Frame(lfr.mod, '<lambda>'); sub.vars = dict(lfr.vars)
-            for p, v in zip(lam.args.args, args): sub.vars[p.arg] = v
+            dflt = f[3] if len(f) > 3 else []
+            params = lam.args.args
+            for p, v in zip(params[len(params) - len(dflt):], dflt): sub.vars[p.arg] = v
+            for p, v in zip(params, args): sub.vars[p.arg] = v
+            for k_, v in kwargs.items(): sub.vars[k_] = v
             return self.eval(lam.body, sub)
         if isinstance(f, tuple) and f and f[0] == 'strmethod':
             s, a = f[1], f[2]
